@@ -422,3 +422,18 @@ Print Assumptions C19_comment_empty_is_none.
 Theorem C19_spec_comment_empty_is_none : forall i, spec (with_comment i (Some [])) = spec (with_comment i None).
 Proof. exact spec_comment_empty_is_none. Qed.
 Print Assumptions C19_spec_comment_empty_is_none.
+
+(* last round: '%s' formatting inserts the argument verbatim after '%'-free text and never scans it *)
+Theorem C19_format_s_no_rescan : forall pre suf a rest,
+  Forall (fun c => c <> 37) pre ->
+  format_s (pre ++ 37 :: 115 :: suf) (a :: rest) = pre ++ a ++ format_s suf rest.
+Proof. exact format_s_no_rescan. Qed.
+Print Assumptions C19_format_s_no_rescan.
+
+(* exception_response(code, ..): the class taken from status_map has the requested code, a public name,
+   is not one of the excluded bases and is a class of the table (so every theorem about classes applies) *)
+Theorem C19_status_class_sound : forall code c,
+  status_class code = Some c ->
+  In c classes /\ c_code c = code /\ startswith [95] (c_name c) = false /\ mem_text (c_name c) status_map_excluded = false.
+Proof. exact status_class_sound. Qed.
+Print Assumptions C19_status_class_sound.
